@@ -1,8 +1,8 @@
 (* C04 — Lines fit the width, are greedily filled, and truncation is honoured.  Property theorems only.
    Proved for every input: soundness of the fit classification, the truncation bookkeeping of postProcessLine,
    truncation_lines (TruncateAfterLines = k >= 1: at most k lines over any number of WrapNextLine calls with any widths, and
-   from WrapParagraph), width_bound (Proofs/WrapWidth.v + Proofs/WrapValid.v) for EVERY break policy and, for
-   BreakPolicy Never, greedy_partial (Proofs/WrapGreedy.v).
+   from WrapParagraph), width_bound (Proofs/WrapWidth.v + Proofs/WrapValid.v) and greedy (Proofs/WrapGreedyAll.v) for EVERY
+   break policy, truncation_exactly_when (Proofs/WrapTruncWhen.v).
    width_bound (FULL: the width clause of the property): for every WrapNextLine call from a state reached by Prepare + any
    calls, whose entry store has non-negative advances / letter spacing (the property's sign hypothesis; nothing is assumed
    of the input runs' own Advance fields), the returned line measured by Spec/Wrap.v line_measure ON THE RETURNED STORE is
@@ -23,14 +23,14 @@
    * the guard adv_consistent on the call's entry store (finding F6: input runs edited through aliases by an earlier call
      kept a stale Advance, which a run placed whole carried onto the line) - with the fix "a run placed whole has its
      advance recomputed from its glyphs" (fillUntil, single-run fast path) the wrapper never reads the input Advance.
-   greedy_partial states the greedy clause under BreakPolicy Never (no guard on the input Advance either): a line returned
-   with the wrapper still live ends at a mandatory break / at the first option of a unit that cannot fit, or the next valid
-   UAX #14 opportunity after it was tried and the line extended to it measures more than maxWidth (Spec/Wrap.v line_measure
-   of the exact pieces on the call's entry store, i.e. before the start letter spacing of the first glyph is trimmed).
-   The greedy clause for policies WhenNecessary / Always is not proved (no longer refuted: the former witness of F7 is a
-   regression record in Findings/Wrap.v) and stays with the oracle greedy_ok. *)
-From TV Require Import Model.Wrap Spec.Wrap Spec.WrapGreedy Proofs.Wrap Proofs.WrapLines Proofs.WrapTrunc Proofs.WrapWidth Proofs.WrapGreedy
-  Proofs.WrapValid.
+   greedy (FULL, every break policy; Proofs/WrapGreedyAll.v) states the greedy clause over positions and widths: a line
+   returned with the wrapper still live ends at a mandatory boundary, or the next valid UAX #14 opportunity after it could not
+   be taken - and, under Always or when WhenNecessary split the line inside a word, the next valid candidate of either kind
+   (UAX #14 opportunity or grapheme boundary) could not be taken - without measuring more than maxWidth (Spec/Wrap.v
+   line_measure of the exact pieces on the call's entry store, i.e. before the start letter spacing of the first glyph is
+   trimmed).  greedy_partial is the earlier statement for BreakPolicy Never over the breaker registers, kept. *)
+From TV Require Import Model.Wrap Spec.Wrap Spec.WrapGreedy Spec.WrapGreedyAll Proofs.Wrap Proofs.WrapLines Proofs.WrapTrunc Proofs.WrapWidth
+  Proofs.WrapGreedy Proofs.WrapValid Proofs.WrapGreedyAll Proofs.WrapTruncWhen.
 
 (* Whenever processBreakOption classifies a candidate, the classification agrees with the measured width
    (advanceSpaceAware of the candidate + advance of the runs already on the line, rounded up): fits / endLine
@@ -237,5 +237,106 @@ Example greedy_example :
 Proof.
   cbv zeta. split; [vm_compute; reflexivity|]. split; [vm_compute; reflexivity|]. split; [vm_compute; reflexivity|].
   split; [reflexivity|]. split; [reflexivity|]. split; [reflexivity|].
+  split; vm_compute; eexists _, _; repeat split; reflexivity.
+Qed.
+
+(* ---- the greedy clause for every break policy (Proofs/WrapGreedyAll.v) ------------------------------------------------- *)
+
+(* greedy (FULL: the greedy clause of the property, every break policy).  Prepare on well-formed runs with ANY policy, ANY
+   sequence of WrapNextLine calls with any widths reaching a live state wk, one more call with maxWidth mw that leaves the
+   wrapper live (done = false; a line returned with done = true ends the text or is the truncated line).  Only hypothesis
+   on the entry store of that call: nonneg_adv (the property's sign hypothesis).  Then the call returned a non-nil line
+   [s, e) = [lineStart, NextLine) and (Spec/WrapGreedyAll.v greedy_stmt):
+   * e is a mandatory boundary (a mandatory break ended the line), or
+   * the next valid UAX #14 opportunity after e could not be taken: there is q >= e with NO valid UAX #14 opportunity
+     strictly between e and q such that the runes [s, q), placed as the exact pieces of the input runs (piece_ok), measure
+     more than mw by Spec/Wrap.v line_measure on the call's entry store (extended_line_too_wide); AND, when the policy is
+     Always, or WhenNecessary and e is not a UAX #14 opportunity (the line was split inside a word), the same with "valid
+     UAX #14 opportunity or valid grapheme boundary": the next candidate of either kind could not be taken.
+   q = e is the line that is itself too wide (the unit that cannot fit, the exception of width_bound).  "Valid" = not
+   strictly inside a shaped cluster of any run.  As in greedy_partial the measure is taken before the wrapper trims the
+   start letter spacing of the first glyph of the line.  The statement is about positions and widths only - no breaker
+   register occurs in it.  Proved from the invariants of Proofs/WrapValid.v (WI, GI) through both loops of wrapNextLine
+   (Proofs/WrapGreedyAll.v inner_G, outer_G). *)
+Theorem greedy : forall n w cfg attrs runs widths wk rs mw w' wl,
+  wf_runs (w_st w) runs n = true -> zlen attrs - 1 = n -> 1 <= n ->
+  run_calls (prepare w cfg attrs runs 0 0) widths = Ok (wk, rs) -> w_more wk = true ->
+  nonneg_adv (w_st wk) = true ->
+  wrap_next_line wk mw = Ok (w', wl, false) ->
+  (exists line, wl_line wl = Some line)
+  /\ greedy_stmt attrs (w_st wk) runs (c_dir (w_cfg wk)) (c_policy (w_cfg wk)) (w_start wk) (wl_next wl) mw.
+Proof. exact greedy_all_calls. Qed.
+Print Assumptions greedy.
+
+(* non-vacuity, policies WhenNecessary and Always: the text of the F7 regression (runes a b c d SP e f, clusters a, b, c,
+   "d SP e", f) at maxWidth 2.  The first call returns [0,2) and stays live; position 2 is no UAX #14 opportunity (the line is
+   split inside the word), so the second half of the clause applies: the next candidate 3 is a valid grapheme boundary
+   and [0,3) measures 3 > 2.  The second call returns [2,6): "c" + the fused cluster, again live. *)
+Example greedy_all_example :
+  let st := [[mkGlyph 0 1 1 64 64 0 0 0; mkGlyph 1 1 1 64 64 0 0 0; mkGlyph 2 1 1 64 64 0 0 0; mkGlyph 3 3 1 64 64 0 0 0;
+              mkGlyph 6 1 1 64 64 0 0 0]; []] in
+  let runs := [mkOut 320 0 0 7 0 0 5 0] in
+  let attrs := [4; 4; 4; 4; 4; 5; 4; 7] in
+  forall pol, pol = 0 \/ pol = 2 ->
+  let cfg := mkCfg 0 0 (mkOut 0 0 0 0 1 0 0 0) false pol false in
+  let wk := prepare (w_zero st) cfg attrs runs 0 0 in
+  wf_runs st runs 7 = true /\ nonneg_adv st = true
+  /\ run_calls wk [] = Ok (wk, []) /\ w_more wk = true
+  /\ (exists w' wl, wrap_next_line wk 2 = Ok (w', wl, false) /\ wl_next wl = 2 /\ c_policy (w_cfg wk) = pol
+        /\ line_boundary attrs 2 = false /\ mandatory_boundary attrs 2 = false
+        /\ valid_grapheme_break attrs st runs 3)
+  /\ (exists w' rs, run_calls wk [2; 2] = Ok (w', rs) /\ map (fun x => (wl_next (fst x), snd x)) rs = [(2, false); (6, false)]).
+Proof.
+  cbv zeta. intros pol [-> | ->]; (split; [vm_compute; reflexivity|]); (split; [vm_compute; reflexivity|]);
+    (split; [reflexivity|]); (split; [reflexivity|]); split; vm_compute; eexists _, _; repeat split; reflexivity.
+Qed.
+
+(* ---- truncation "exactly when" (Proofs/WrapTruncWhen.v) ------------------------------------------------------------------ *)
+
+(* truncation_exactly_when (FULL: the truncation clause of the property, with truncation_lines and width_bound).  Prepare with
+   any configuration (TruncateAfterLines = k, any truncator whose glyph array lies after the runs' arrays, any
+   TextContinues, policy, widths) on well-formed runs, ANY sequence of WrapNextLine calls reaching a live state after j calls,
+   one more call.  Then every one of the j earlier calls returned a line (the call at hand returns line number j + 1), and
+   (Spec/WrapGreedyAll.v trunc_when with what is left of the counter, k - j, or 0 when truncation is disabled):
+   * k >= 1 and j + 1 = k - the call that returns the k-th line: it reports done, Truncated = n - NextLine, and the
+     truncator is appended EXACTLY WHEN Truncated > 0 or TextContinues: if so the returned line ends with the truncator
+     run, no other run of the line has the truncator's glyph array, and its Runes are (NextLine, Truncated) - the cut range;
+     if not, the line holds no truncator;
+   * every other call (an earlier line, or k <= 0): Truncated = 0 and the line holds no truncator.
+   That the k-th line was filled against maxWidth - ceil(truncator advance) is width_bound above; that no further line
+   follows is truncation_lines. *)
+Theorem truncation_exactly_when : forall n w cfg attrs runs widths wk rs mw w' wl d,
+  wf_runs (w_st w) runs n = true -> zlen attrs - 1 = n -> 1 <= n ->
+  run_calls (prepare w cfg attrs runs 0 0) widths = Ok (wk, rs) -> w_more wk = true ->
+  zlen runs <= o_src (c_truncator cfg) ->
+  wrap_next_line wk mw = Ok (w', wl, d) ->
+  forallb has_line rs = true
+  /\ trunc_when n (o_src (c_truncator cfg)) (if 1 <=? c_trunc cfg then c_trunc cfg - zlen rs else 0) (c_cont cfg) wl d.
+Proof. exact truncation_when_calls. Qed.
+Print Assumptions truncation_exactly_when.
+
+(* non-vacuity: "a a b" in two runs, TruncateAfterLines = 2, the truncator's array is number 2.
+   At width 1 the second call is the truncating one: nothing fits beside the truncator, it returns the truncator alone
+   with Runes (1,2), Truncated = 2;
+   at width 1000 with TextContinues = false the first call returns the whole text, done, no truncator, Truncated = 0
+   (k - j = 2: not the truncating call); with TruncateAfterLines = 1 and TextContinues = true the whole text fits and the
+   truncator is appended with Runes (3,0). *)
+Example truncation_when_example :
+  let st := [[mkGlyph 0 1 1 64 64 0 0 0; mkGlyph 1 1 1 64 64 0 0 0]; [mkGlyph 2 1 1 64 64 0 0 0]; [mkGlyph 0 1 1 64 64 0 0 0]] in
+  let runs := [mkOut 128 0 0 2 0 0 2 0; mkOut 64 0 2 1 1 0 1 0] in
+  let tr := mkOut 64 0 0 1 2 0 1 0 in
+  let attrs := [4; 5; 5; 7] in
+  wf_runs st runs 3 = true /\ zlen runs <= o_src tr
+  /\ (let wk := prepare (w_zero st) (mkCfg 0 2 tr false 0 false) attrs runs 0 0 in
+      exists w' rs, run_calls wk [1; 1] = Ok (w', rs)
+        /\ map (fun x => (wl_truncated (fst x), wl_next (fst x), snd x, option_map (map rng) (wl_line (fst x)))) rs
+           = [(0, 1, false, Some [(0, 1, 0)]); (2, 1, true, Some [(1, 2, 2)])])
+  /\ (let wk := prepare (w_zero st) (mkCfg 0 2 tr false 0 false) attrs runs 0 0 in
+      exists w' l, wrap_next_line wk 1000 = Ok (w', mkWrapped (Some l) 0 3, true) /\ has_truncator 2 l = false)
+  /\ (let wk := prepare (w_zero st) (mkCfg 0 1 tr true 0 false) attrs runs 0 0 in
+      exists w' l, wrap_next_line wk 1000 = Ok (w', mkWrapped (Some l) 0 3, true) /\ map rng l = [(0, 2, 0); (2, 1, 1); (3, 0, 2)]).
+Proof.
+  cbv zeta. split; [vm_compute; reflexivity|]. split; [vm_compute; discriminate|].
+  split; [vm_compute; eexists _, _; repeat split; reflexivity|].
   split; vm_compute; eexists _, _; repeat split; reflexivity.
 Qed.
